@@ -10,7 +10,7 @@ from typing import Dict, List, Optional, Set, Tuple
 from .ctx import Ctx
 from .model import AnalysisError, ClassInfo, FieldInfo, FunctionInfo
 from .report import RuleResult
-from .terms import (Attr, BoundMethod, Call, ClassRef, Comp, Const, EnumMember, Evaluator, Ext, GlobalVal, Guard, Lam, helper_inline,
+from .terms import (Attr, Ite, BoundMethod, Call, ClassRef, Comp, Const, EnumMember, Evaluator, Ext, GlobalVal, Guard, Lam, helper_inline,
                     Loop, Op, Opaque, Outcome, Sub, Sym, Term, TupleT, alternatives, guards_repr, implied_literals, norm_guards, walk)
 from .util import exists_form, all_terms, call_name, call_recv, is_self_attr, method_calls, none_test, outcome_terms
 
@@ -733,6 +733,26 @@ def S4(ctx: Ctx) -> RuleResult:
     return r
 
 
+def _schema_args_unchanged(c: Call, tm: Term, vs: Optional[Term]) -> bool:
+    """type_check_references(<this_msg>, <variables>) with both arguments as received ({} standing in for None only)"""
+    def same(x: Term, y: Term) -> bool:
+        return isinstance(x, Sym) and isinstance(y, Sym) and x.name == y.name   # the parameter, whatever its annotation
+    args = list(c.args) + [v for k, v in c.kwargs]
+    if not args or not same(args[0], tm):
+        return False
+    if vs is None or len(args) < 2:
+        return len(args) < 2 or vs is None
+    v = args[1]
+    if same(v, vs):
+        return True
+    if isinstance(v, Ite):
+        nt = none_test(v.test)
+        if nt is not None and same(nt[0], vs):
+            given, absent = (v.b, v.a) if nt[1] else (v.a, v.b)
+            return same(given, vs) and type(absent).__name__ == 'DictT' and not absent.items
+    return False
+
+
 # --------------------------------------------------- type_check_references walk
 def S5(ctx: Ctx) -> RuleResult:
     r = RuleResult('S5', 'type_check_references reaches every slot of every expression: generic walk pushes all children; accessors visit object chain and index')
@@ -774,6 +794,11 @@ def S5(ctx: Ctx) -> RuleResult:
         acc_guard = [(t, pol) for t, pol in norm_guards(pg) if isinstance(t, Attr) and t.name == 'is_accessor']
         if delegates and acc_guard and acc_guard[0][1]:
             r.ok(f'{desc} accessor -> its own type_check_references')
+            if not gen_mode:
+                ps5 = fi.params()
+                for c5 in method_calls(effs, 'type_check_references'):
+                    if not _schema_args_unchanged(c5, Sym(ps5[1]), Sym(ps5[2]) if len(ps5) > 2 else None):
+                        r.fail('HplExpression.type_check_references:arguments', f'the accessor is checked with {str(c5)[-90:]}: the current message type and the alias map must be passed on as they were given', fi.where)
         elif pushes_children:
             r.ok(f'{desc} pushes children()')
         else:
@@ -1293,3 +1318,237 @@ def S9(ctx: Ctx) -> RuleResult:
 
 
 RULES['S9'] = S9
+
+
+# ------------------------------------------------------- access path resolution
+def _flag_test(t: Term, base: Term, member: str) -> bool:
+    """bool(<base>.type & DataType.<member>)  (what token.is_message / is_array inline to), or the property itself"""
+    if isinstance(t, Attr) and t.base == base and t.name == {'MESSAGE': 'is_message', 'ARRAY': 'is_array'}.get(member):
+        return True
+    if isinstance(t, Call) and isinstance(t.func, Ext) and t.func.name == 'bool' and len(t.args) == 1:
+        x = t.args[0]
+        return isinstance(x, Op) and x.op == '&' and Attr(base, 'type') in x.args and EnumMember('DataType', member) in x.args
+    return False
+
+
+def S10(ctx: Ctx) -> RuleResult:
+    r = RuleResult('S10', 'access-path resolution: HplDataAccess.type_check_references walks .object down to the root while it is an accessor (collecting every accessor, itself included), takes the type of the root from the current message for `this` and from the caller\'s alias map for an alias, raises HplSanityError exactly when there is none, and then resolves the accessors from the root outwards: t = accessor._get_next_token(t), accessor checked against t.type; _get_next_token picks fields before constants (the token of a constant is entry[0]), the element type of an array, and raises otherwise')
+    from .terms import flat_guards, implied_literals, expand_outcomes, guards_consistent
+    m = ctx.model
+    da = m.cls('HplDataAccess', 'S10')
+    fi = da.resolve('type_check_references')
+    if fi is None:
+        raise AnalysisError('S10', 'HplDataAccess.type_check_references not found')
+    ps = fi.params()
+    self_t, tm, vs = Sym('self', 'HplDataAccess'), Sym(ps[1]), Sym(ps[2]) if len(ps) > 2 else Sym('variables')
+    base_pol = helper_inline((fi.module.name,), exclude=('_get_next_token', '_type_check'))
+
+    def pol(f: FunctionInfo, depth: int) -> bool:
+        if base_pol(f, depth):
+            return True
+        # private helpers of the accessor classes that hold one of the loops of the protocol
+        if f.cls is not None and da in f.cls.mro() and f.name.startswith('_') and not f.name.startswith('__') and f.name not in ('_get_next_token', '_type_check') and depth <= 2:
+            return not any(isinstance(x, (ast.Yield, ast.YieldFrom, ast.With, ast.Try)) for x in ast.walk(f.node)) and sum(1 for x in ast.walk(f.node) if isinstance(x, ast.stmt)) <= 30
+        return False
+    ev = ctx.memo('S10_ev', lambda: Evaluator(m, inline=pol))
+    outs = ev.run(fi, {'self': self_t, ps[1]: tm, **({ps[2]: vs} if len(ps) > 2 else {})}, self_cls=da)
+    where = fi.where
+    n = 0
+
+    def list_of(t: Term) -> Optional[Term]:
+        """the list literal that collects the accessors ([self] or [])"""
+        if isinstance(t, TupleT) and t.kind == 'list' and t.items in ((self_t,), ()):
+            return t
+        if isinstance(t, Call) and isinstance(t.func, Ext) and t.func.name.split('.')[-1] in ('deque', 'grown') and t.args:
+            return list_of(t.args[0])
+        return None
+    for o in outs:
+        if not guards_consistent(o.guards):
+            continue
+        loops = [e for e in o.effects if isinstance(e, Loop)]
+        # 1. the walk to the root
+        walk_loop = None
+        for lp in loops:
+            if lp.target == '<while>' and isinstance(lp.cond, Attr) and lp.cond.name == 'is_accessor' and isinstance(lp.cond.base, Opaque) and len(lp.paths) == 1 and not lp.paths[0][0]:
+                pg, flow, binds, effs = lp.paths[0]
+                stepped = [k for k, v in binds if isinstance(v, Attr) and v.name == 'object' and v.base == Opaque(f'loopvar:{k}') and lp.cond.base == Opaque(f'loopvar:{k}')]
+                pushes = [c for c in effs if isinstance(c, Call) and call_name(c) in ('append', 'appendleft', 'insert') and list_of(call_recv(c)) is not None]
+                if len(stepped) == 1 and len(pushes) == 1 and pushes[0].args[-1:] == (Opaque(f'loopvar:{stepped[0]}'),):
+                    start = dict(lp.inits).get(stepped[0])
+                    lst = call_recv(pushes[0])
+                    init_list = list_of(lst)
+                    front = call_name(pushes[0]) == 'appendleft' or (call_name(pushes[0]) == 'insert' and pushes[0].args[:1] == (Const(0),))
+                    if (start == Attr(self_t, 'object') and init_list.items == (self_t,)) or (start == self_t and init_list.items == ()):
+                        walk_loop = (lp, stepped[0], lst, 'I2O' if front else 'O2I')
+        if walk_loop is None:
+            r.fail('HplDataAccess.type_check_references:walk', 'no walk `while x.is_accessor: collect x; x = x.object` from self (or from self.object with self already collected) on a path: the access path is not followed to its root', where)
+            continue
+        n += 1
+        lw, root_var, lst, orient = walk_loop
+        root = Opaque(f'loop:{root_var}')
+        def root_token(t: Term) -> Optional[str]:
+            if t == tm:
+                return 'this'
+            if isinstance(t, Call) and call_name(t) == 'get' and t.args == (Attr(root, 'name'),) and (call_recv(t) == vs or type(call_recv(t)).__name__ == 'DictT'):
+                return 'var'
+            if isinstance(t, Sub) and t.index == Attr(root, 'name') and t.base == vs:
+                return 'var'
+            return None
+        lits0 = dict(implied_literals(o.guards, 12))
+        cases = [lits0.get(Attr(root, 'is_this_msg'))]
+        if cases == [None]:
+            cases = [True, False]    # both kinds of root take this path: each is judged on its own
+        stop = False
+        for is_this in cases:
+            gs = tuple(o.guards) + ((Attr(root, 'is_this_msg'), is_this),)
+            if not guards_consistent(gs):
+                continue
+            lits = dict(implied_literals(gs, 14))
+            none_tests = [((x, True), pol) for g, pol in lits.items() for x in [none_test(g)[0] if none_test(g) else None] if x is not None and root_token(x) is not None
+                          for pol in [pol if none_test(g)[1] else not pol]]
+            # the alias map is the one the caller gave (an empty one only when none was given)
+            given = next(((none_test(g)[1] == pol) for g, pol in lits.items() if none_test(g) is not None and none_test(g)[0] == vs), None)
+            want = 'this' if is_this else 'var'
+            for (x, _), _pol in none_tests:
+                if root_token(x) == 'var' and isinstance(x, Call) and want == 'var':
+                    from_param = call_recv(x) == vs
+                    if (given is True and from_param) or (given is False and not from_param):
+                        r.fail('HplDataAccess.type_check_references:variables', f'aliases are looked up in {"the (absent) argument" if from_param else "an empty map"} although the caller {"gave no" if given else "gave an"} alias map: every alias reference of a valid predicate is then reported as unknown', where)
+            missing = None
+            for (x, _), pol in none_tests:
+                if root_token(x) != want:
+                    continue
+                missing = pol
+            wrong = [x for (x, _), pol in none_tests if root_token(x) != want and o.kind == 'raise' and pol and missing is not True]
+            if wrong:
+                r.fail('HplDataAccess.type_check_references:root', f'for {"`this`" if is_this else "an alias"} at the root the type is looked up as {str(wrong[0])[:50]}: {"the current message" if is_this else "the alias map"} gives the type of {"`this`" if is_this else "an alias"}', where, want)
+            if o.kind == 'raise':
+                if 'HplSanityError' not in repr(o.value) or missing is not True:
+                    r.fail('HplDataAccess.type_check_references:missing', f'raises {str(o.value)[:40]} under [{guards_repr(norm_guards(gs))[-80:]}]: HplSanityError is for a root without a type token, and only for that', where)
+                else:
+                    r.ok(f'root {want}: HplSanityError when there is no type token')
+                stop = True
+                continue
+            if missing is True:
+                r.fail('HplDataAccess.type_check_references:missing', 'a root without a type token is resolved instead of reported', where)
+                stop = True
+                continue
+            if want == 'var' and missing is None:
+                r.fail('HplDataAccess.type_check_references:missing', 'an alias without a type token is not reported (HplSanityError)', where)
+        if stop or o.kind == 'raise':
+            continue
+        is_this = cases[0] if len(cases) == 1 else None
+        want = 'this' if is_this else 'var'
+        # 2. the resolution loop: over the collected accessors, innermost first
+        res = None
+        for lp in loops:
+            if lp is lw:
+                continue
+            it = lp.iter
+            flip = False
+            if lp.target == '<while>' and list_of(it) is not None:
+                pops = [v for pth in lp.paths for _, v in pth[2] if isinstance(v, Call) and call_name(v) in ('pop', 'popleft') and list_of(call_recv(v)) is not None]
+                if pops:
+                    elem = pops[0]
+                    flip = call_name(elem) == 'pop' and not elem.args
+                    res = (lp, elem, flip)
+            elif lp.target != '<while>':
+                src = it
+                if isinstance(src, Call) and isinstance(src.func, Ext) and src.func.name == 'reversed' and len(src.args) == 1:
+                    src, flip = src.args[0], True
+                if list_of(src) is not None:
+                    res = (lp, Sym(f'each:{lp.target}'), flip)
+        if res is None:
+            r.fail('HplDataAccess.type_check_references:resolve', 'the collected accessors are never resolved (no loop over them after the walk)', where)
+            continue
+        l2, elem, flip = res
+        n_rev = sum(1 for e in o.effects if isinstance(e, Call) and call_name(e) == 'reverse' and list_of(call_recv(e)) is not None and not e.args)
+        final = (orient == 'I2O') ^ bool(n_rev % 2) ^ flip
+        if not final:
+            r.fail('HplDataAccess.type_check_references:order', 'the accessors are resolved from the outermost inwards: the type of `a.b.c` must be found by resolving b in the type of a, then c in the type of a.b', where)
+        init_t = next((v for k, v in l2.inits if root_token(v) is not None or isinstance(v, Ite)), None)
+        if isinstance(init_t, Ite):
+            if not (init_t.test == Attr(root, 'is_this_msg') and root_token(init_t.a) == 'this' and root_token(init_t.b) == 'var'):
+                r.fail('HplDataAccess.type_check_references:root', f'the root type is {str(init_t)[:90]}, expected the current message for `this` and variables[name] for an alias', where)
+        elif init_t is None or is_this is None or root_token(init_t) != want:
+            r.fail('HplDataAccess.type_check_references:root', f'resolution starts from {str(init_t)[:60]} for {"`this`" if is_this else "an alias" if is_this is False else "either kind of root"}', where)
+        for pg, flow, binds, effs in l2.paths:
+            b = dict(binds)
+            tvar = next((k for k, v in binds if isinstance(v, Call) and call_name(v) == '_get_next_token'), None)
+            nxt = b.get(tvar) if tvar else None
+            good_next = isinstance(nxt, Call) and call_recv(nxt) is not None and repr(call_recv(nxt)) == repr(elem) and nxt.args == (Opaque(f'loopvar:{tvar}'),)
+            if not good_next:
+                r.fail('HplDataAccess.type_check_references:resolve', f'a step is not t = accessor._get_next_token(t) on the accessor taken from the collected list: {str(nxt)[:80]}', where)
+                continue
+            tcs = [c for c in effs if isinstance(c, Call) and call_name(c) == '_type_check' and call_recv(c) == self_t]
+            if not (len(tcs) == 1 and len(tcs[0].args) == 2 and repr(tcs[0].args[0]) == repr(elem) and tcs[0].args[1] == Attr(nxt, 'type')):
+                r.fail('HplDataAccess.type_check_references:check', f'the accessor is not type-checked against the type of its own token: {[str(c)[:80] for c in tcs]}', where)
+        r.ok(f'root {"this/alias" if is_this is None else want}: accessors resolved from the root outwards')
+    r.floor('paths through the access-path check', n, 4)
+    # _get_next_token of the two accessor classes: the rejection of a token of the wrong kind (token untyped), then the
+    # lookup as a decision list (token typed, so that methods of the type token classes are looked through)
+    fa = m.cls('HplFieldAccess', 'S10')
+    f1 = fa.resolve('_get_next_token')
+    if f1 is None:
+        raise AnalysisError('S10', 'HplFieldAccess._get_next_token not found')
+    s1 = Sym('self', 'HplFieldAccess')
+    tok = Sym('token')
+    rej = False
+    for o in ctx.ev.run(f1, {'self': s1, f1.params()[1]: tok}, self_cls=fa):
+        lits = list(implied_literals(o.guards, 12))
+        if next((pol for g, pol in lits if _flag_test(g, tok, 'MESSAGE')), None) is False:
+            if o.kind == 'raise' and 'TypeError' in repr(o.value):
+                rej = True
+            else:
+                r.fail('HplFieldAccess._get_next_token:reject', f'a token that is not a message is not rejected with TypeError: {o.kind} {str(o.value)[:50]}', f'{f1.module.relpath}:{o.lineno}')
+    (r.ok('HplFieldAccess._get_next_token: not a message -> TypeError') if rej else r.fail('HplFieldAccess._get_next_token:reject', 'missing case: not a message -> TypeError', f1.where))
+    tokm = Sym('token', 'MessageType')
+    evt = ctx.memo('S10_ev_tok', lambda: Evaluator(m, inline=helper_inline(('hpl.types', f1.module.name), exclude=('_type_check',))))
+    seen = {'field': False, 'const': False, 'missing': False}
+    for o in expand_outcomes(evt.run(f1, {'self': s1, f1.params()[1]: tokm}, self_cls=fa)):
+        if not guards_consistent(o.guards):
+            continue
+        lits = dict(implied_literals(o.guards, 12))
+        if any(_flag_test(g, tokm, 'MESSAGE') and pol is False for g, pol in lits.items()):
+            continue
+        in_f = lits.get(Op('in', (Attr(s1, 'field'), Attr(tokm, 'fields'))))
+        in_c = lits.get(Op('in', (Attr(s1, 'field'), Attr(tokm, 'constants'))))
+        desc = f'[{guards_repr(norm_guards(o.guards))[-90:]}] {o.kind} {str(o.value)[:50]}'
+        if in_f is True and o.kind == 'return' and o.value == Sub(Attr(tokm, 'fields'), Attr(s1, 'field')):
+            seen['field'] = True
+        elif in_f is False and in_c is True and o.kind == 'return' and o.value == Sub(Sub(Attr(tokm, 'constants'), Attr(s1, 'field')), Const(0)):
+            seen['const'] = True
+        elif in_f is False and in_c is False and o.kind == 'raise':
+            seen['missing'] = True
+        else:
+            r.fail('HplFieldAccess._get_next_token:case', f'unexpected case {desc}: expected fields[name] if the name is a field, else constants[name][0] if it is a constant, else an error', f'{f1.module.relpath}:{o.lineno}')
+    for k, label in (('field', 'name in fields -> fields[name]'), ('const', 'else name in constants -> constants[name][0]'), ('missing', 'else -> error')):
+        (r.ok(f'HplFieldAccess._get_next_token: {label}') if seen[k] else r.fail(f'HplFieldAccess._get_next_token:{k}', f'missing case: {label}', f1.where))
+    aa = m.cls('HplArrayAccess', 'S10')
+    f2 = aa.resolve('_get_next_token')
+    if f2 is None:
+        raise AnalysisError('S10', 'HplArrayAccess._get_next_token not found')
+    s2 = Sym('self', 'HplArrayAccess')
+    seen2 = {'reject': False, 'range': False, 'elem': False}
+    for o in expand_outcomes(evt.run(f2, {'self': s2, f2.params()[1]: tok}, self_cls=aa)):
+        if not guards_consistent(o.guards):
+            continue
+        lits = list(implied_literals(o.guards, 12))
+        is_arr = next((pol for g, pol in lits if _flag_test(g, tok, 'ARRAY')), None)
+        ci = next((pol for g, pol in lits if isinstance(g, Call) and call_name(g) == 'contains_index' and call_recv(g) == tok and g.args == (Attr(Attr(s2, 'index'), 'value'),)), None)
+        lit_idx = all(dict(lits).get(Attr(Attr(s2, 'index'), k)) is True for k in ('is_value', 'is_literal'))
+        desc = f'[{guards_repr(norm_guards(o.guards))[-90:]}] {o.kind} {str(o.value)[:50]}'
+        if is_arr is False and o.kind == 'raise' and 'TypeError' in repr(o.value):
+            seen2['reject'] = True
+        elif is_arr is True and o.kind == 'raise' and lit_idx and ci is False:
+            seen2['range'] = True
+        elif is_arr is True and o.kind == 'return' and o.value == Attr(tok, 'subtype') and not (lit_idx and ci is False):
+            seen2['elem'] = True
+        else:
+            r.fail('HplArrayAccess._get_next_token:case', f'unexpected case {desc}: expected TypeError for a token that is not an array, an error for a literal index outside the array, the element type otherwise', f'{f2.module.relpath}:{o.lineno}')
+    for k, label in (('reject', 'not an array -> TypeError'), ('range', 'literal index not contained -> error'), ('elem', 'otherwise -> token.subtype')):
+        (r.ok(f'HplArrayAccess._get_next_token: {label}') if seen2[k] else r.fail(f'HplArrayAccess._get_next_token:{k}', f'missing case: {label}', f2.where))
+    return r
+
+
+RULES['S10'] = S10
